@@ -291,6 +291,7 @@ func c1MinimiseProg(p c1prog, want string, evals int, pref []c1arr) (c1prog, c1f
 	}
 	orig := best
 	origShapes := c1Shapes(p, nil)
+	emptyCompr := c1countMaybeEmpty(p.src)
 	for changed := true; changed && left > 0; {
 		changed = false
 		for n := 0; left > 0; n++ {
@@ -309,11 +310,15 @@ func c1MinimiseProg(p c1prog, want string, evals int, pref []c1arr) (c1prog, c1f
 					newShape = true
 				}
 			}
-			if newShape {
+			if ne := c1countMaybeEmpty(cand); newShape || ne > emptyCompr {
+				// e.g. emptying the literal a `for` ranges over
 				continue
+			} else {
+				_ = ne
 			}
 			if f2, ok := c1failingArrangement(q, want, 12, 1, pref, false, &orig, &left); ok {
 				p, best = q, f2
+				emptyCompr = c1countMaybeEmpty(p.src)
 				changed = true
 				n--
 			}
